@@ -11,7 +11,7 @@ for d in ${@:-$(ls seeded)}; do
   chk=$(/venv/bin/python -c "import json;m=json.load(open('$m'));print((m.get('caught_by') or [m['property']])[0])")
   rm -rf $work; cp -r $clean $work
   if ! (cd $work && patch -p1 -s < /verif/seeded/$d/patch.diff >/dev/null 2>&1); then echo "$d DOES-NOT-APPLY"; bad=1; continue; fi
-  YABGP_REPO=$work timeout 1800 ./check $chk --tier quick > /tmp/seedreg_out.txt 2>&1
+  VERIF_EVIDENCE_DIR=$work/.evidence YABGP_REPO=$work timeout 1800 ./check $chk --tier quick > /tmp/seedreg_out.txt 2>&1
   rc=$?
   echo "$d $chk rc=$rc viol=$(grep -c '^VIOLATION' /tmp/seedreg_out.txt)"
   [ $rc -ne 1 ] && bad=1
